@@ -147,3 +147,32 @@ CASES = [
     S("s-abs-clip-args", "AbsoluteLoss.eval clip(lo, hi) exchanged", ("        return np.abs(\n            np.clip(y_true, self.min_val, self.max_val)", "        return np.abs(\n            np.clip(y_true, self.max_val, self.min_val)"), file=BG),
     S("s-zeroone", "ZeroOneLoss range (0, 2)", ("        super().__init__(0, 1)", "        super().__init__(0, 2)"), file=BG),
 ]
+
+COMB = ("    if pd.notnull(control) and pd.notnull(event):\n        return _CTRL_EVENT_FORMAT.format(control, event)\n    return event\n")
+MERGE = ("    if control_col is None:\n        return event_col\n    return event_col.combine(control_col, _combine_event_and_control)\n")
+CHAIN1 = "            self.eps = _DEFAULT_DIFFERENCE_BOUND\n            self.ratio = 1.0\n"
+CHAIN3 = "            self.ratio = ratio_bound\n"
+
+CASES += [
+    # ---- _combine_event_and_control / _merge_event_and_control_columns / self.ratio (lifted since L1) -------- refactors
+    R("r-combine-guard-order", "the two notnull tests exchanged", (COMB, COMB.replace("pd.notnull(control) and pd.notnull(event)", "pd.notnull(event) and pd.notnull(control)")),
+      expect="changed", why="`a && b` vs `b && a` is emitted in source order; C06.event_rule_lifted re-proves for both (class b)"),
+    R("r-combine-if-else", "if / else instead of the early return", (COMB, COMB.replace("    return event\n", "    else:\n        return event\n"))),
+    R("r-combine-notna", "pd.notna instead of pd.notnull", (COMB, COMB.replace("pd.notnull(control)", "pd.notna(control)"))),
+    R("r-combine-isnull-first", "null test first: `if pd.isnull(control) or pd.isnull(event): return event`",
+      (COMB, "    if pd.isnull(control) or pd.isnull(event):\n        return event\n    return _CTRL_EVENT_FORMAT.format(control, event)\n"),
+      expect="changed", why="De Morgan form is emitted as written; C06.event_rule_lifted re-proves (class b)"),
+    R("r-merge-if-else", "merge: if / else, `func=` keyword", (MERGE, "    if control_col is None:\n        return event_col\n    else:\n        return event_col.combine(control_col, func=_combine_event_and_control)\n")),
+    R("r-merge-is-not", "merge: `if control_col is not None:` with exchanged branches",
+      (MERGE, "    if control_col is not None:\n        return event_col.combine(control_col, _combine_event_and_control)\n    return event_col\n")),
+    R("r-ratio-reorder", "self.ratio assigned before self.eps in the first branch", (CHAIN1, "            self.ratio = 1.0\n            self.eps = _DEFAULT_DIFFERENCE_BOUND\n")),
+    # ------------------------------------------------------------------ semantic edits
+    S("s-combine-no-guard", "F3 reverted: always formats", (COMB, "    return _CTRL_EVENT_FORMAT.format(control, event)\n")),
+    S("s-combine-guard-control-only", "guard on the control value only", (COMB, COMB.replace("pd.notnull(control) and pd.notnull(event)", "pd.notnull(control)"))),
+    S("s-combine-or", "guard with `or`", (COMB, COMB.replace(") and pd.notnull(", ") or pd.notnull("))),
+    S("s-combine-returns-control", "null case returns the control value", (COMB, COMB.replace("    return event\n", "    return control\n"))),
+    S("s-merge-receiver", "control_col.combine(event_col, ..): the function gets (control, event)", (MERGE, MERGE.replace("event_col.combine(control_col,", "control_col.combine(event_col,"))),
+    S("s-merge-none-flip", "merge skipped when a control column IS given", (MERGE, MERGE.replace("control_col is None", "control_col is not None"))),
+    S("s-ratio-default", "default ratio 0.5 when no bound is given", (CHAIN1, CHAIN1.replace("self.ratio = 1.0", "self.ratio = 0.5"))),
+    S("s-ratio-slack", "ratio branch stores the slack as ratio", (CHAIN3, "            self.ratio = ratio_bound_slack\n")),
+]
